@@ -129,6 +129,9 @@ class WideM(Model):
 
     def args(self, p, rnd):
         if p == "read":
+            top = (1 << self.rw.bit_length()) - 1  # largest count representable in the argument field
+            if top > self.rw and rnd.random() < 0.15:
+                return {"count": rnd.randint(self.rw + 1, top)}  # min(count, level, read_width) must clamp it
             return {"count": self.rw if self.mode == 1 else rnd.randint(0, self.rw)}
         if p == "write":
             free = self.depth - len(self.q)
@@ -169,7 +172,7 @@ class WideM(Model):
         if "read" in c and "write" in c:
             tags.append("rw")
         if "read" in c and c["read"][1]["count"] < c["read"][0]["count"]:
-            tags.append("clamped")
+            tags.append("clamped_over_width" if c["read"][0]["count"] > self.rw else "clamped")
         if "write" in c and c["write"][0]["count"] == self.depth - len(self.q):
             tags.append("exactfit")
         if "clear" in c and "write" in c:
